@@ -160,6 +160,33 @@ impl Shape {
             Shape::Sector(s) => s.bounding_box(),
         }
     }
+    /// `points()` of the primitive.
+    pub fn points(&self) -> Vec<Point> {
+        use embedded_graphics::primitives::PointsIter;
+        match self {
+            Shape::Rect(s) => s.points().collect(),
+            Shape::Circle(s) => s.points().collect(),
+            Shape::Ellipse(s) => s.points().collect(),
+            Shape::RRect(s) => s.points().collect(),
+            Shape::Triangle(s) => s.points().collect(),
+            Shape::Line(s) => s.points().collect(),
+            Shape::Arc(s) => s.points().collect(),
+            Shape::Sector(s) => s.points().collect(),
+        }
+    }
+    /// `contains()` where the primitive offers it.
+    pub fn contains(&self, p: Point) -> Option<bool> {
+        use embedded_graphics::primitives::ContainsPoint;
+        match self {
+            Shape::Rect(s) => Some(ContainsPoint::contains(s, p)),
+            Shape::Circle(s) => Some(s.contains(p)),
+            Shape::Ellipse(s) => Some(s.contains(p)),
+            Shape::RRect(s) => Some(s.contains(p)),
+            Shape::Triangle(s) => Some(s.contains(p)),
+            Shape::Sector(s) => Some(s.contains(p)),
+            Shape::Line(_) | Shape::Arc(_) => None,
+        }
+    }
     pub fn translate(&self, by: Point) -> Shape {
         use embedded_graphics::transform::Transform;
         match self {
